@@ -67,7 +67,7 @@ def _single_truc(ctx, P):
         "VSIZE_OK": lt(r"vsize", 10001),
         "CHILD_OK": lt(r"vsize", 1001),
         "ONE_PARENT": lt(r"1 \+ mempool_parents\.size\(\)", 3),
-        "NO_PARENT": "mempool_parents.size() < 1",
+        "NO_PARENT": "mempool_parents.empty()",
         "PARENT_NO_ANC": lt(r"1 \+ pool\.GetAncestorCount\(" + PARENT0 + r"\)", 3),
         "PARENT_NO_CHILD": lt(r"1 \+ pool\.GetDescendantCount\(" + PARENT0 + r"\)", 3),
         "NO_DESC": re.compile(r"\w+\.empty\(\)"),
@@ -90,7 +90,8 @@ def _single_truc(ctx, P):
     okp = False
     for s in anys:
         a = call_args(s.expr)
-        fs = P.fns(a[2][1]) if len(a) >= 3 and a[2][0] == "lambda" else []
+        lam = resolve_lambda(f, a[2]) if len(a) >= 3 else None     # inline or named (single-definition local) predicate
+        fs = P.fns(lam[1]) if lam else []
         if len(fs) == 1:
             rets = [st for st in stmts(fs[0].body) if st.get("k") == "ret"]
             okp = len(rets) == 1 and re.fullmatch(r"direct_conflicts\.contains\(\w+\.GetTx\(\)\.GetHash\(\)\)", show(rets[0].get("v"))) is not None
@@ -127,7 +128,7 @@ def _package_truc(ctx, P):
         "VSIZE_OK": lambda k: lt(r"vsize", 10001)(k) and not lt(r"vsize", 1001)(k),
         "CHILD_OK": lt(r"vsize", 1001),
         "ONE_PARENT": lt(r"1 \+ \(" + npar + r"\)", 3),
-        "HAS_MP": ["mempool_parents.size()", ("mempool_parents.size() < 1", False)],
+        "HAS_MP": [("mempool_parents.empty()", False)],
         "MP_NO_ANC": lt(r"1 \+ \((?:FindInPackageParents\(package, ptx\)|in_package_parents)\.size\(\) \+ pool\.GetAncestorCount\(" + PARENT0 + r"\)\)", 3),
         "NO_PARENT": re.compile(npar + r" < 1"),
         "PARENT_V3": re.compile(lam + r"\.m_version == 3"),
@@ -216,12 +217,12 @@ def _ephemeral(ctx, P):
     for s in ins:
         ssub = site_subst(sub, s)
         k = xkey(call_args(s.expr)[0], ssub)
-        okk = re.fullmatch(r"COutPoint\{each\(each\(package\)\.vin\)\.prevout\.hash, (\w+)\}", k)
         gl = s.loops[-1] if s.loops else None
+        rng, ivar = index_loop(gl, ssub) if gl is not None else (None, None)     # index loop or range-for over <parent>.vout
+        okk = re.fullmatch(r"COutPoint\{each\(each\(package\)\.vin\)\.prevout\.hash, (\w+)\}", k)
         dust = F.mk_and([x.formula(ssub) for x in in_loop_guards(s, gl) if x.kind != "post"]) if gl is not None else F.T
-        okd = okk is not None and re.fullmatch(r"IsDust\(\w+\.vout\[%s\], dust_relay_rate\)" % re.escape(okk.group(1)), F.fshow(dust)) is not None
-        okl = gl is not None and gl.get("k") == "for" and re.fullmatch(r"for\(0; %s < \w+\.vout\.size\(\)\)" % re.escape(okk.group(1) if okk else "?"), loop_range_key(gl, ssub)) is not None \
-            and loop_is_total(gl)
+        okl = rng is not None and re.fullmatch(r"\w+\.vout", rng) is not None and loop_is_total(gl) and okk is not None and okk.group(1) == ivar
+        okd = okl and F.fshow(dust) in ("IsDust(each(%s), dust_relay_rate)" % rng, "IsDust(%s[%s], dust_relay_rate)" % (rng, ivar))
         ctx.ob("CheckEphemeralSpends/collect@L%s" % s.line, "PROVENANCE", "every dust output (IsDust at the relay rate) of every output index of a spent parent is "
                "collected as COutPoint(parent txid, index)", okd and okl, s.where, {"key": k, "guard": F.fshow(dust), "loop": loop_range_key(gl, ssub) if gl else None})
     parent_src = [(l, show(v)) for l, v in local_values(g, "parent_ref")] if any(st.get("n") == "parent_ref" for st in stmts(g.body)) else None
